@@ -46,7 +46,24 @@ func fail(format string, a ...any) {
 
 // ---- types of the subset
 // sexpr (*ast.SExpr) -> term; var (*ast.Variable) -> N; subst (Substitutions) -> subst; subpair -> N * term; bool; nat (len, int); N (uint64)
+// dialect "micro": package micro over Term.v;  dialect "gomini": gomini/unify.go over Reflect.v / GCore.v (see GoLiteG.v)
+var dialect = "micro"
+var prefix = "g_"
+
 func goType(e ast.Expr) string {
+	if dialect == "gomini" {
+		switch src(e) {
+		case "any":
+			return "gval"
+		case "*State":
+			return "state"
+		case "Var":
+			return "N"
+		case "bool":
+			return "bool"
+		}
+		fail("type outside the subset: %s", src(e))
+	}
 	switch src(e) {
 	case "*ast.SExpr":
 		return "sexpr"
@@ -81,6 +98,14 @@ func coqType(t string) string {
 		return "nat"
 	case "subpair":
 		return "(N * term)"
+	case "gval", "rvalue":
+		return "gval"
+	case "state":
+		return "gsub"
+	case "state?":
+		return "(option gsub)"
+	case "kind":
+		return "kind"
 	}
 	if strings.HasPrefix(t, "(") { // tuple "(a,b)"
 		parts := strings.Split(t[1:len(t)-1], ",")
@@ -108,6 +133,9 @@ var order = []string{"assv", "walk", "walkStar", "occurs", "exts", "unify", "rei
 
 func (f *fn) resType() string {
 	if len(f.results) == 1 {
+		if f.results[0] == "state" {
+			return "state?" // a returned *State may be nil
+		}
 		return f.results[0]
 	}
 	return "(" + strings.Join(f.results, ",") + ")"
@@ -123,8 +151,16 @@ type ex struct {
 type ctx struct {
 	f     *fn
 	vars  map[string]string // Go variable -> type
+	ren   map[string]string // Go variable -> Coq name, for variables scoped to an if statement (they must not shadow in the rest)
 	fuel  string            // the fuel term handed to fuelled calls
 	fresh *int
+}
+
+func (c *ctx) name(s string) string {
+	if r, ok := c.ren[s]; ok {
+		return r
+	}
+	return varName(s)
 }
 
 func (c *ctx) tmp() string {
@@ -137,7 +173,11 @@ func (c *ctx) clone() *ctx {
 	for k, t := range c.vars {
 		v[k] = t
 	}
-	return &ctx{f: c.f, vars: v, fuel: c.fuel, fresh: c.fresh}
+	rn := map[string]string{}
+	for k, t := range c.ren {
+		rn[k] = t
+	}
+	return &ctx{f: c.f, vars: v, ren: rn, fuel: c.fuel, fresh: c.fresh}
 }
 
 func ret(e ex) string {
@@ -193,6 +233,8 @@ func (c *ctx) expr(e ast.Expr, want string) ex {
 				return ex{"[]", true, "subst"}
 			case "sexpr":
 				return ex{"TNil", true, "sexpr"}
+			case "state?":
+				return ex{"None", true, "state?"}
 			}
 			fail("%s: nil of unknown type (%q)", c.f.name, want)
 		case "true", "false":
@@ -202,7 +244,7 @@ func (c *ctx) expr(e ast.Expr, want string) ex {
 		if !ok {
 			fail("%s: unknown identifier %s", c.f.name, e.Name)
 		}
-		return ex{varName(e.Name), true, t}
+		return ex{c.name(e.Name), true, t}
 	case *ast.BasicLit:
 		if e.Kind == token.INT {
 			return ex{e.Value + "%nat", true, "nat"}
@@ -297,6 +339,8 @@ func (c *ctx) expr(e ast.Expr, want string) ex {
 				eq = "Nat.eqb"
 			case "bool":
 				eq = "Bool.eqb"
+			case "kind":
+				eq = "kind_eqb"
 			default:
 				fail("%s: == on %s", c.f.name, a.ty)
 			}
@@ -310,6 +354,11 @@ func (c *ctx) expr(e ast.Expr, want string) ex {
 			return c.seq([]ex{a, b}, func(n []string) ex { return ex{"(" + n[0] + " + " + n[1] + ")%nat", true, "nat"} })
 		}
 	case *ast.SelectorExpr:
+		if id, ok := e.X.(*ast.Ident); ok && id.Name == "reflect" && dialect == "gomini" {
+			if k, ok := map[string]string{"Ptr": "KPtr", "Slice": "KSlice", "Struct": "KStruct", "Map": "KMap", "Interface": "KInterface"}[e.Sel.Name]; ok {
+				return ex{k, true, "kind"}
+			}
+		}
 		// X.Atom.Var | X.Pair.Car | X.Pair.Cdr | V.Index | P.Key | P.Value
 		if inner, ok := e.X.(*ast.SelectorExpr); ok {
 			var prim, ty string
@@ -349,7 +398,144 @@ func (c *ctx) expr(e ast.Expr, want string) ex {
 	return ex{}
 }
 
+// a function literal handed to reflecttools.Any / Map: one parameter of type any, translated as a Coq function into R
+func (c *ctx) closure(fl *ast.FuncLit, res string) string {
+	if len(fl.Type.Params.List) != 1 || len(fl.Type.Params.List[0].Names) != 1 || goType(fl.Type.Params.List[0].Type) != "gval" {
+		fail("%s: closure parameters: %s", c.f.name, src(fl.Type))
+	}
+	if fl.Type.Results == nil || len(fl.Type.Results.List) != 1 || goType(fl.Type.Results.List[0].Type) != res {
+		fail("%s: closure result: %s", c.f.name, src(fl.Type))
+	}
+	p := fl.Type.Params.List[0].Names[0].Name
+	cc := c.clone()
+	g := *c.f
+	g.results = []string{res}
+	cc.f = &g
+	cc.vars[p] = "gval"
+	delete(cc.ren, p)
+	return fmt.Sprintf("(fun %s =>\n%s)", varName(p), cc.stmts(fl.Body.List, ""))
+}
+
+func (c *ctx) gominiCall(e *ast.CallExpr) (ex, bool) {
+	sel, ok := e.Fun.(*ast.SelectorExpr)
+	if !ok {
+		return ex{}, false
+	}
+	if id, ok := sel.X.(*ast.Ident); ok && (id.Name == "reflecttools" || id.Name == "reflect") {
+		if _, isVar := c.vars[id.Name]; !isVar {
+			arg := func(i int, want string) ex {
+				a := c.expr(e.Args[i], want)
+				if a.ty != want {
+					fail("%s: argument %d of %s has type %s, want %s", c.f.name, i, src(e), a.ty, want)
+				}
+				return a
+			}
+			switch id.Name + "." + sel.Sel.Name {
+			case "reflecttools.IsNil":
+				if len(e.Args) == 1 {
+					return c.seq([]ex{arg(0, "gval")}, func(n []string) ex { return ex{"is_nil " + n[0], true, "bool"} }), true
+				}
+			case "reflect.ValueOf":
+				if len(e.Args) == 1 {
+					a := arg(0, "gval")
+					return ex{a.code, a.pure, "rvalue"}, true
+				}
+			case "reflect.DeepEqual":
+				if len(e.Args) == 2 {
+					return c.seq([]ex{arg(0, "gval"), arg(1, "gval")}, func(n []string) ex { return ex{"gval_eqb " + n[0] + " " + n[1], true, "bool"} }), true
+				}
+			case "reflecttools.ZipReduce":
+				// ZipReduce(x, y, s, g) with g one of the translated functions of type func(x, y any, s *State) *State
+				if len(e.Args) == 4 {
+					gid, ok := e.Args[3].(*ast.Ident)
+					if !ok || fns[gid.Name] == nil {
+						fail("%s: ZipReduce with a function outside the translated set: %s", c.f.name, src(e))
+					}
+					g := fns[gid.Name]
+					if len(g.params) != 3 || g.params[0][1] != "gval" || g.params[1][1] != "gval" || g.params[2][1] != "state" || g.resType() != "state?" {
+						fail("%s: ZipReduce with a function of the wrong type: %s", c.f.name, src(e))
+					}
+					gc := prefix + g.name
+					if g.fuelled {
+						gc += " " + c.fuel
+					}
+					as := []ex{arg(0, "gval"), arg(1, "gval"), arg(2, "state")}
+					for _, a := range as {
+						if !a.pure {
+							fail("%s: impure argument of ZipReduce: %s", c.f.name, src(e))
+						}
+					}
+					return ex{fmt.Sprintf("zipreduce_state (%s) (%s) (%s) (%s)", gc, as[0].code, as[1].code, as[2].code), false, "state?"}, true
+				}
+			case "reflecttools.Any", "reflecttools.Map":
+				if len(e.Args) == 2 {
+					fl, ok := e.Args[1].(*ast.FuncLit)
+					if !ok {
+						fail("%s: %s needs a function literal: %s", c.f.name, sel.Sel.Name, src(e))
+					}
+					a := arg(0, "gval")
+					if !a.pure {
+						fail("%s: impure argument: %s", c.f.name, src(e))
+					}
+					if sel.Sel.Name == "Any" {
+						return ex{fmt.Sprintf("ranyR %s (%s)", c.closure(fl, "bool"), a.code), false, "bool"}, true
+					}
+					return ex{fmt.Sprintf("rmapR %s (%s)", c.closure(fl, "gval"), a.code), false, "gval"}, true
+				}
+			}
+			fail("%s: call outside the subset: %s", c.f.name, src(e))
+		}
+	}
+	// v.Elem().Kind()
+	if sel.Sel.Name == "Kind" && len(e.Args) == 0 {
+		if inner, ok := sel.X.(*ast.CallExpr); ok {
+			if isel, ok := inner.Fun.(*ast.SelectorExpr); ok && isel.Sel.Name == "Elem" && len(inner.Args) == 0 {
+				v := c.expr(isel.X, "rvalue")
+				if v.ty == "rvalue" {
+					return c.seq([]ex{v}, func(n []string) ex { return ex{"elem_kind " + n[0], true, "kind"} }), true
+				}
+			}
+		}
+	}
+	x := c.expr(sel.X, "")
+	switch x.ty + "." + sel.Sel.Name {
+	case "rvalue.Kind":
+		if len(e.Args) == 0 {
+			return c.seq([]ex{x}, func(n []string) ex { return ex{"kind_of " + n[0], true, "kind"} }), true
+		}
+	case "state.CastVar":
+		if len(e.Args) == 1 {
+			a := c.expr(e.Args[0], "gval")
+			if a.ty == "gval" {
+				return c.seq([]ex{x, a}, func(n []string) ex { return ex{"cast_var2 " + n[1], true, "(N,bool)"} }), true
+			}
+		}
+	case "state.Get":
+		if len(e.Args) == 1 {
+			a := c.expr(e.Args[0], "N")
+			if a.ty == "N" {
+				return c.seq([]ex{x, a}, func(n []string) ex { return ex{"gget " + n[0] + " " + n[1], true, "(gval,bool)"} }), true
+			}
+		}
+	case "state.Set":
+		if len(e.Args) == 2 {
+			a := c.expr(e.Args[0], "N")
+			b := c.expr(e.Args[1], "gval")
+			if a.ty == "N" && b.ty == "gval" {
+				return c.seq([]ex{x, a, b}, func(n []string) ex { return ex{"gset " + n[0] + " " + n[1] + " " + n[2], true, "state"} }), true
+			}
+		}
+	}
+	fail("%s: call outside the subset: %s", c.f.name, src(e))
+	return ex{}, false
+}
+
 func (c *ctx) call(e *ast.CallExpr) ex {
+	if dialect == "gomini" {
+		if r, ok := c.gominiCall(e); ok {
+			return r
+		}
+	}
 	// methods
 	if sel, ok := e.Fun.(*ast.SelectorExpr); ok {
 		if id, ok := sel.X.(*ast.Ident); ok && id.Name == "ast" && sel.Sel.Name == "Cons" && len(e.Args) == 2 {
@@ -449,7 +635,7 @@ func (c *ctx) call(e *ast.CallExpr) ex {
 			names[i] = c.tmp()
 		}
 	}
-	code := "g_" + g.name
+	code := prefix + g.name
 	if g.fuelled {
 		code += " " + c.fuel
 	}
@@ -508,22 +694,22 @@ func assigned(c *ctx, ss []ast.Stmt) []string {
 	return out
 }
 
-func tuple(vs []string) string {
+func (c *ctx) tuple(vs []string) string {
 	if len(vs) == 1 {
-		return varName(vs[0])
+		return c.name(vs[0])
 	}
 	n := make([]string, len(vs))
 	for i, v := range vs {
-		n[i] = varName(v)
+		n[i] = c.name(v)
 	}
 	return "(" + strings.Join(n, ", ") + ")"
 }
 
-func pat(vs []string) string {
+func (c *ctx) pat(vs []string) string {
 	if len(vs) == 1 {
-		return varName(vs[0])
+		return c.name(vs[0])
 	}
-	return "'" + tuple(vs)
+	return "'" + c.tuple(vs)
 }
 
 func (c *ctx) bindTo(e ex, pattern string, rest string) string {
@@ -548,6 +734,9 @@ func (c *ctx) stmts(ss []ast.Stmt, k string) string {
 		}
 		if len(s.Results) == 1 {
 			e := c.expr(s.Results[0], c.f.resType())
+			if e.ty == "state" && c.f.resType() == "state?" { // a non-nil *State
+				e = c.seq([]ex{e}, func(n []string) ex { return ex{"Some " + n[0], true, "state?"} })
+			}
 			if e.ty != c.f.resType() {
 				fail("%s: return of type %s, want %s", c.f.name, e.ty, c.f.resType())
 			}
@@ -636,7 +825,7 @@ func (c *ctx) stmts(ss []ast.Stmt, k string) string {
 				}
 			}
 			c.vars[n] = tys[i]
-			pnames[i] = varName(n)
+			pnames[i] = c.name(n)
 		}
 		p := pnames[0]
 		if len(pnames) > 1 {
@@ -660,7 +849,54 @@ func (c *ctx) stmts(ss []ast.Stmt, k string) string {
 		fail("%s: statement outside the subset: %s", c.f.name, src(s))
 	case *ast.IfStmt:
 		if s.Init != nil {
-			fail("%s: if with init: %s", c.f.name, src(s))
+			// if a, b := e; cond { A }   - a and b are scoped to the if statement: they get names of their own, so that
+			// nothing after the statement can see them
+			as, ok := s.Init.(*ast.AssignStmt)
+			if !ok || as.Tok != token.DEFINE || len(as.Rhs) != 1 || s.Else != nil {
+				fail("%s: if with init: %s", c.f.name, src(s))
+			}
+			e := c.expr(as.Rhs[0], "")
+			var tys []string
+			if len(as.Lhs) == 1 {
+				tys = []string{e.ty}
+			} else {
+				if !strings.HasPrefix(e.ty, "(") {
+					fail("%s: %s: a tuple is needed", c.f.name, src(as))
+				}
+				tys = strings.Split(e.ty[1:len(e.ty)-1], ",")
+				if len(tys) != len(as.Lhs) {
+					fail("%s: %s: arity", c.f.name, src(as))
+				}
+			}
+			ic := c.clone()
+			pn := make([]string, len(as.Lhs))
+			for i, l := range as.Lhs {
+				id, ok := l.(*ast.Ident)
+				if !ok {
+					fail("%s: assignment target: %s", c.f.name, src(l))
+				}
+				if id.Name == "_" {
+					pn[i] = "_"
+					continue
+				}
+				*c.fresh++
+				ic.ren[id.Name] = fmt.Sprintf("%s_i%d", id.Name, *c.fresh)
+				ic.vars[id.Name] = tys[i]
+				pn[i] = ic.ren[id.Name]
+			}
+			p := pn[0]
+			if len(pn) > 1 {
+				p = "'(" + strings.Join(pn, ", ") + ")"
+			}
+			cond := ic.expr(s.Cond, "bool")
+			if cond.ty != "bool" || !cond.pure {
+				fail("%s: condition of an if with init: %s", c.f.name, src(s.Cond))
+			}
+			if !terminates(s.Body.List) {
+				fail("%s: an if with init whose body does not return: %s", c.f.name, src(s))
+			}
+			body := fmt.Sprintf("if (%s) then\n%s\nelse\n%s", cond.code, ic.clone().stmts(s.Body.List, ""), c.stmts(rest, k))
+			return c.bindTo(e, p, body)
 		}
 		cond := c.expr(s.Cond, "bool")
 		if cond.ty != "bool" {
@@ -686,14 +922,40 @@ func (c *ctx) stmts(ss []ast.Stmt, k string) string {
 			}
 			// a join on the assigned variables
 			vs := assigned(c, s.Body.List)
-			thn := c.clone().stmts(s.Body.List, "Ret "+tuple(vs))
-			return fmt.Sprintf("bind (if %s then\n%s\nelse Ret %s) (fun %s =>\n%s)", cv, thn, tuple(vs), pat(vs), c.stmts(rest, k))
+			thn := c.clone().stmts(s.Body.List, "Ret "+c.tuple(vs))
+			return fmt.Sprintf("bind (if %s then\n%s\nelse Ret %s) (fun %s =>\n%s)", cv, thn, c.tuple(vs), c.pat(vs), c.stmts(rest, k))
 		}
 		if cond.pure {
 			code = mk("(" + cond.code + ")")
 		} else {
 			t := c.tmp()
 			code = fmt.Sprintf("bind (%s) (fun %s =>\n%s)", cond.code, t, mk(t))
+		}
+		return code
+	case *ast.SwitchStmt:
+		// switch tag { case K: A ... }  every case body returns; no default: control falls to the statements after the switch
+		if s.Init != nil || s.Tag == nil {
+			fail("%s: switch form: %s", c.f.name, src(s))
+		}
+		tag := c.expr(s.Tag, "")
+		if !tag.pure || tag.ty != "kind" {
+			fail("%s: switch on %s", c.f.name, tag.ty)
+		}
+		after := c.stmts(rest, k)
+		code := after
+		for i := len(s.Body.List) - 1; i >= 0; i-- {
+			cc := s.Body.List[i].(*ast.CaseClause)
+			if cc.List == nil || len(cc.List) != 1 {
+				fail("%s: case form: %s", c.f.name, src(cc))
+			}
+			kc := c.expr(cc.List[0], "kind")
+			if kc.ty != "kind" || !kc.pure {
+				fail("%s: case of type %s", c.f.name, kc.ty)
+			}
+			if !terminates(cc.Body) {
+				fail("%s: a case that does not return: %s", c.f.name, src(cc))
+			}
+			code = fmt.Sprintf("if kind_eqb (%s) %s then\n%s\nelse\n%s", tag.code, kc.code, c.clone().stmts(cc.Body, ""), code)
 		}
 		return code
 	case *ast.RangeStmt:
@@ -728,11 +990,19 @@ func (c *ctx) stmts(ss []ast.Stmt, k string) string {
 }
 
 func main() {
+	if len(os.Args) == 4 && os.Args[1] == "-gomini" {
+		dialect, prefix = "gomini", "gm_"
+		order = []string{"walk", "hasCycle", "isLeaf", "unify", "rewrite"}
+		os.Args = append(os.Args[:1], os.Args[2:]...)
+	}
 	if len(os.Args) != 3 {
-		fail("usage: genmicro <repo> <outdir>")
+		fail("usage: genmicro [-gomini] <repo> <outdir>")
 	}
 	repo, outdir := os.Args[1], os.Args[2]
 	files := []string{"micro/walk.go", "micro/exts.go", "micro/unify.go", "micro/reify.go"}
+	if dialect == "gomini" {
+		files = []string{"gomini/unify.go"}
+	}
 	for _, p := range files {
 		f, err := parser.ParseFile(fset, filepath.Join(repo, p), nil, 0)
 		if err != nil {
@@ -780,13 +1050,24 @@ func main() {
 	for _, g := range fns {
 		ast.Inspect(g.decl.Body, func(n ast.Node) bool {
 			switch n.(type) {
-			case *ast.FuncLit, *ast.GoStmt, *ast.DeferStmt:
-				fail("%s: closures, go and defer are outside the subset", g.name)
+			case *ast.FuncLit:
+				if dialect != "gomini" {
+					fail("%s: closures are outside the subset", g.name)
+				}
+			case *ast.GoStmt, *ast.DeferStmt:
+				fail("%s: go and defer are outside the subset", g.name)
 			}
 			if c, ok := n.(*ast.CallExpr); ok {
 				if id, ok := c.Fun.(*ast.Ident); ok {
 					if _, ok := fns[id.Name]; ok {
 						g.calls[id.Name] = true
+					}
+				}
+				for _, a := range c.Args { // a translated function handed on as a value (ZipReduce(x, y, s, unify))
+					if id, ok := a.(*ast.Ident); ok {
+						if _, ok := fns[id.Name]; ok {
+							g.calls[id.Name] = true
+						}
 					}
 				}
 			}
@@ -833,13 +1114,19 @@ func main() {
 	}
 
 	var sb strings.Builder
-	sb.WriteString("(* GENERATED by harness/cmd/genmicro from micro/walk.go, micro/exts.go, micro/unify.go, micro/reify.go - do not edit.\n")
-	sb.WriteString("   Each function is the Go function of the same name, statement by statement, in the result monad of GoLite.v. *)\n")
-	sb.WriteString("From Coq Require Import List NArith ZArith Bool.\nFrom GMK Require Import Term Reify GoLite.\nImport ListNotations.\n\n")
+	if dialect == "gomini" {
+		sb.WriteString("(* GENERATED by harness/cmd/genmicro -gomini from gomini/unify.go - do not edit.\n")
+		sb.WriteString("   Each function is the Go function of the same name, statement by statement, in the result monad of GoLite.v over the\n   reflecttools value model (Reflect.v) with the primitives of GoLiteG.v. *)\n")
+		sb.WriteString("From Coq Require Import List NArith ZArith Bool.\nFrom GMK Require Import Term Reflect GCore GoLite GoLiteG.\nImport ListNotations.\n\n")
+	} else {
+		sb.WriteString("(* GENERATED by harness/cmd/genmicro from micro/walk.go, micro/exts.go, micro/unify.go, micro/reify.go - do not edit.\n")
+		sb.WriteString("   Each function is the Go function of the same name, statement by statement, in the result monad of GoLite.v. *)\n")
+		sb.WriteString("From Coq Require Import List NArith ZArith Bool.\nFrom GMK Require Import Term Reify GoLite.\nImport ListNotations.\n\n")
+	}
 	fresh := 0
 	for _, n := range sorted {
 		g := fns[n]
-		c := &ctx{f: g, vars: map[string]string{}, fresh: &fresh}
+		c := &ctx{f: g, vars: map[string]string{}, ren: map[string]string{}, fresh: &fresh}
 		var ps []string
 		for _, p := range g.params {
 			c.vars[p[0]] = p[1]
@@ -852,18 +1139,21 @@ func main() {
 		case g.rec:
 			c.fuel = "f'"
 			body := c.stmts(g.decl.Body.List, "")
-			fmt.Fprintf(&sb, "Fixpoint g_%s (f : nat) %s {struct f} : %s :=\nmatch f with\n| O => OOF_\n| S f' =>\n%s\nend.\n\n", n, sig, rt, body)
+			fmt.Fprintf(&sb, "Fixpoint %s%s (f : nat) %s {struct f} : %s :=\nmatch f with\n| O => OOF_\n| S f' =>\n%s\nend.\n\n", prefix, n, sig, rt, body)
 		case g.fuelled:
 			c.fuel = "f"
 			body := c.stmts(g.decl.Body.List, "")
-			fmt.Fprintf(&sb, "Definition g_%s (f : nat) %s : %s :=\n%s.\n\n", n, sig, rt, body)
+			fmt.Fprintf(&sb, "Definition %s%s (f : nat) %s : %s :=\n%s.\n\n", prefix, n, sig, rt, body)
 		default:
 			c.fuel = "NOFUEL"
 			body := c.stmts(g.decl.Body.List, "")
-			fmt.Fprintf(&sb, "Definition g_%s %s : %s :=\n%s.\n\n", n, sig, rt, body)
+			fmt.Fprintf(&sb, "Definition %s%s %s : %s :=\n%s.\n\n", prefix, n, sig, rt, body)
 		}
 	}
 	out := filepath.Join(outdir, "MicroGen.v")
+	if dialect == "gomini" {
+		out = filepath.Join(outdir, "GominiGen.v")
+	}
 	text := sb.String()
 	if old, err := os.ReadFile(out); err == nil && string(old) == text {
 		return
